@@ -316,7 +316,9 @@ BatchSetRelUpWhy(w, f, t) ==
     First(<< LockWhy(w),
              IF ~TargetOK(w, t) THEN "dead-target" ELSE "",
              IF ~FilterUsable(w, f) THEN "args" ELSE "" >>)
-BatchSetRelAllRel(w, M, rel) == \A h \in M : RelOf(w, w.comps[h]) = rel
+(* tables that already have the requested target are skipped without looking at the component; *)
+(* every other matching entity must carry exactly this relation component                       *)
+BatchSetRelAllRel(w, M, rel, t) == \A h \in M : w.tgt[h] = t \/ RelOf(w, w.comps[h]) = rel
 BatchSetRelChanged(w, M, t) == { h \in M : w.tgt[h] # t }
 BatchSetRelStep(w, M, t) == [w EXCEPT !.tgt = [h \in w.alive |-> IF h \in M THEN t ELSE w.tgt[h]]]
 BatchSetRelEvents(w, M, rel, t) == { TargetEvent(w, h, rel) : h \in BatchSetRelChanged(w, M, t) }
